@@ -52,6 +52,9 @@ def qe(v):
     return (f, Fraction(0))
 
 
+TWIN_FAIL = []
+
+
 def gen_affine(rng, comps, k, allow_const=True):
     """list of k ScalarExpressions"""
     out = []
@@ -90,7 +93,7 @@ def build_model(rng):
         k = rng.randint(1, 3)
         aff1 = Expression(gen_affine(rng, comps, k))
         aff2 = Expression(gen_affine(rng, comps, k))
-        kind = rng.choice(['aff', 'aff', 'abs', 'pos', 'exp', 'relent', 'norm', 'mixed'])
+        kind = rng.choice(['aff', 'aff', 'abs', 'pos', 'exp', 'relent', 'norm', 'mixed', 'twin'])
         op = rng.choice(['<=', '>=', '=='])
         dcp = True
         if kind == 'aff':
@@ -108,6 +111,37 @@ def build_model(rng):
                 nl = cl.relent(arg(2), arg(2))
             elif kind == 'norm':
                 nl = cl.vector2norm(arg(rng.randint(1, 3)))
+            elif kind == 'twin':
+                # two atoms of one class whose arguments differ in a single number, -1 against -2 (numbers that hash equally in CPython), 1 against 2, ...
+                base_e = Expression(gen_affine(rng, comps, 1, allow_const=False))
+                base_e = base_e - base_e.ravel()[0].offset      # offset 0
+                u, v = rng.choice([(-1.0, -2.0), (-1.0, -2.0), (1.0, 2.0), (-1.0, -3.0), (0.0, -1.0)])
+                how = rng.choice(['abs_offset', 'pos_offset', 'exp_coeff', 'abs_coeff'])
+                if how == 'abs_offset':
+                    nl = clabs(base_e + u) + clabs(base_e + v)
+                elif how == 'pos_offset':
+                    nl = clpos(base_e + u) + clpos(base_e + v)
+                elif how == 'exp_coeff':
+                    cc = rng.choice(comps)
+                    nl = cl.weighted_sum_exp(np.array([1.0, 1.0]), Expression([(u if u else 1.0) * cc, v * cc]))
+                else:
+                    cc = rng.choice(comps)
+                    nl = clabs(Expression([(u if u else 1.0) * cc + 1.0])) + clabs(Expression([v * cc + 1.0]))
+                # the sum of the two atoms must mean the sum of the two functions: compare with numpy at assigned values, independently of the
+                # Expression's own bookkeeping (two different atoms must not be identified when they are added)
+                for uv in user:
+                    uv.value = np.array([rng.randint(-6, 6) / 2.0 for _ in range(max(uv.size, 1))]).reshape(uv.shape)
+                bv = float(np.asarray(base_e.value, dtype=float).ravel()[0])
+                if how in ('exp_coeff', 'abs_coeff'):
+                    cv = float(np.asarray(Expression([cc]).value, dtype=float).ravel()[0])
+                want = {'abs_offset': lambda: abs(bv + u) + abs(bv + v), 'pos_offset': lambda: max(bv + u, 0) + max(bv + v, 0),
+                        'exp_coeff': lambda: math.exp((u if u else 1.0) * cv) + math.exp(v * cv),
+                        'abs_coeff': lambda: abs((u if u else 1.0) * cv + 1.0) + abs(v * cv + 1.0)}[how]()
+                gotv = float(np.asarray(nl.value, dtype=float).ravel()[0])
+                natoms = len(nl.ravel()[0].atoms_to_coeffs)
+                if abs(gotv - want) > 1e-9 * (1 + abs(want)) or natoms != 2:
+                    TWIN_FAIL.append('the sum of two %s atoms whose arguments differ in one number (%r against %r) has %d atom(s) and evaluates to %r at '
+                                     'assigned values; the two functions add up to %r' % (how.split('_')[0], u, v, natoms, gotv, want))
             else:
                 nl = clabs(arg(k)) + float(rng.choice([1, 2])) * clpos(arg(k))
             if op == '==':
@@ -120,7 +154,7 @@ def build_model(rng):
                 lhs, rhs = nl + aff1, aff2
             else:
                 lhs, rhs = aff2, nl + aff1
-            if kind in ('exp', 'relent', 'norm'):
+            if kind in ('exp', 'relent', 'norm', 'twin'):
                 aff2 = Expression(gen_affine(rng, comps, 1))
                 aff1 = Expression(gen_affine(rng, comps, 1))
                 lhs, rhs = ((nl + aff1, aff2) if op == '<=' else (aff2, nl + aff1)) if dcp else (aff2, nl + aff1)
@@ -365,6 +399,9 @@ def one_case(rng):
         return None, js, None, ('the user Variables %s occur in the constraints (possibly only in a later argument or component of a nonlinear '
                                 'atom) but are missing from the compiled system\'s Variables / variable_map %s' % (missing, sorted(names))), kinds
     why = oracle_model(rng, user, cons, sets, kinds, atoms, comp)
+    if TWIN_FAIL:
+        why = TWIN_FAIL[0]
+        del TWIN_FAIL[:]
     if why is None and rng.random() < 0.3:
         # the conic system is a function of the constraints: compiling the same objects again (and again) states the same system
         sig0 = ([(co.type, int(co.len)) for co in K], A.shape[0], sorted(n_ for n_ in names if not n_.startswith('_')))
@@ -421,6 +458,11 @@ def run(ctx):
     ctx.evaluations += 1
     if why:
         ctx.problem('oracle', 'property fails on the implementation: ' + why, inputs={'suite': 'later_arguments'}, failing_input_found=True)
+    why = oracle_operator_semantics(ctx.rng)
+    ctx.evaluations += 1
+    ctx.suites['operator_semantics'] = {'cases': 1, 'failure': why}
+    if why:
+        ctx.problem('oracle', 'property fails on the implementation: ' + why, inputs={'suite': 'operator_semantics'}, failing_input_found=True)
     for _ in range(ctx.n(12, 100)):
         why = oracle_lmi(ctx.rng)
         ctx.evaluations += 1
@@ -460,6 +502,54 @@ def oracle_later_arguments(rng):
         st, val = cl.Problem(cl.MIN, ya[0] + ya[1] - za[0], cons + [ya >= -1, za <= 1]).solve(verbose=False)
         if st == 'solved' and not (np.all(np.isfinite(ya.value)) and np.all(np.isfinite(za.value))):
             return 'after a solve the Variables la_y / la_z hold %s / %s' % (ya.value, za.value)
+    return None
+
+
+def oracle_operator_semantics(rng):
+    """the nonlinear operators mean what their definitions say for arguments of every shape and memory layout (transposes, reversed and strided
+    slices, Fortran order): the value of the operator at assigned Variable values is compared with numpy on the values, element for element"""
+    import sageopt.coniclifts as cl
+    from sageopt.coniclifts.operators.abs import abs as clabs
+    from sageopt.coniclifts.operators.pos import pos as clpos
+    with warnings.catch_warnings():
+        warnings.simplefilter('ignore')
+        X = cl.Variable(shape=(2, 3), name='os_X')
+        Y = cl.Variable(shape=(3, 2), name='os_Y')
+        vX = np.array([[1.0, 2.0, 0.5], [3.0, 0.25, 4.0]])
+        vY = np.array([[2.0, 1.0], [0.5, 4.0], [8.0, 0.125]])
+        X.value, Y.value = vX, vY
+
+        def rel(a, b):
+            return a * np.log(a / b)
+        layouts = [('X.T, Y', X.T, Y, vX.T, vY), ('X, Y.T', X, Y.T, vX, vY.T), ('X[::-1], Y.T', X[::-1], Y.T, vX[::-1], vY.T),
+                   ('X.T[::-1], Y', X.T[::-1], Y, vX.T[::-1], vY), ('X[:, ::2], Y.T[:, ::2]', X[:, ::2], Y.T[:, ::2], vX[:, ::2], vY.T[:, ::2]),
+                   ('2 * X.T + 1, Y', 2 * X.T + 1, Y, 2 * vX.T + 1, vY), ('X.T, Y + 0', X.T, Y + 0.0, vX.T, vY),
+                   ('asfortranarray(X), Y.T', cl.Expression(np.asfortranarray(np.asarray(X, dtype=object))), Y.T, vX, vY.T)]
+        for name, ea, eb, va, vb in layouts:
+            got = float(np.asarray(cl.relent(ea, eb).value, dtype=float).ravel()[0])
+            want = float(np.sum(rel(va, vb)))
+            if abs(got - want) > 1e-9 * (1 + abs(want)):
+                return 'relent(%s) evaluates to %r at the assigned values; sum x_i log(x_i / y_i) over corresponding entries is %r' % (name, got, want)
+            gote = np.asarray(cl.relent(ea, eb, elementwise=True).value, dtype=float)
+            if gote.shape != va.shape or not np.allclose(gote, rel(va, vb)):
+                return 'relent(%s, elementwise=True) evaluates to %s; numpy gives %s' % (name, gote.tolist(), rel(va, vb).tolist())
+            for opn, f, g in (('abs', clabs, np.abs), ('pos', clpos, lambda t: np.maximum(t, 0))):
+                gv = np.asarray(f(ea - 1.5 * eb).value, dtype=float)
+                if gv.shape != va.shape or not np.allclose(gv, g(va - 1.5 * vb)):
+                    return '%s(%s combined) evaluates to %s; numpy gives %s' % (opn, name, gv.tolist(), g(va - 1.5 * vb).tolist())
+        # and through a compilation: relent(X.T, Y) <= r at X.T = Y must be feasible with r = 0 (every term vanishes only for the right pairing)
+        r = cl.Variable(shape=(1,), name='os_r')
+        st, val = cl.Problem(cl.MIN, r[0], [cl.relent(X.T, Y) <= r, X == vY.T, Y == vY]).solve(verbose=False)
+        if st != 'solved' or abs(val) > 1e-5:
+            return 'min r s.t. relent(X.T, Y) <= r with X.T = Y fixed reports (%s, %r); the optimum is 0' % (st, val)
+        X.value, Y.value = vX, vY          # the solve above loaded other values
+        w = np.array([1.0, 2.0, 0.5])
+        gv = float(np.asarray(cl.weighted_sum_exp(w, X.T[:, 1]).value, dtype=float).ravel()[0])
+        if abs(gv - float(np.sum(w * np.exp(vX.T[:, 1])))) > 1e-9 * (1 + abs(gv)):
+            return 'weighted_sum_exp(w, X.T[:, 1]) evaluates to %r; numpy gives %r' % (gv, float(np.sum(w * np.exp(vX.T[:, 1]))))
+        gv = float(np.asarray(cl.vector2norm(Y.T[0, ::-1]).value, dtype=float).ravel()[0])
+        if abs(gv - float(np.linalg.norm(vY.T[0, ::-1]))) > 1e-9:
+            return 'vector2norm(Y.T[0, ::-1]) evaluates to %r; numpy gives %r' % (gv, float(np.linalg.norm(vY.T[0, ::-1])))
     return None
 
 
